@@ -66,6 +66,8 @@ impl CreateContent {
             .to_owned(),
         };
 
+        Self::check_name(&name)?;
+
         let output = create
           .output
           .clone()
@@ -95,6 +97,8 @@ impl CreateContent {
           .clone()
           .ok_or_else(|| Error::internal("Expected `--name` to be set when `--input -`."))?;
 
+        Self::check_name(&name)?;
+
         let output = create
           .output
           .clone()
@@ -108,6 +112,16 @@ impl CreateContent {
           output,
         })
       }
+    }
+  }
+
+  fn check_name(name: &str) -> Result<()> {
+    if FilePath::is_normal_component(name) {
+      Ok(())
+    } else {
+      Err(Error::NameInvalid {
+        name: name.to_owned(),
+      })
     }
   }
 
